@@ -468,6 +468,7 @@ def run(ctx):
         "profile scale, distance methods read only distance data unscaled, fallbacks are called on the matching method; the pragmatic reader fills "
         "MatrixData durations from travel_times and distances from distances; every provider indexes as from*size+to; provider constructors keep their "
         "confirmed rejecting checks, the length-agreement check compares the two fields, unreachable entries become negative in both vectors.")
+    ctx.explanation += ' The time-agnostic constructor walks the sorted matrices together with a position counter (F3 extension: profile index = position).'
     ctx.not_decided = "interpolation values, bracketing, symmetry of the coordinate approximation."
     ctx.assumptions += ["local names durations/distances in create_transport_costs are treated as role declarations (as in the units pass)"]
     ctx.run("C16-F1", "sibling field roles: duration/distance methods read their own data; scale only on durations", f1_field_roles, floor=18)
